@@ -181,6 +181,12 @@ func (t *Table) addGlobalIndex(gsiInput *types.GlobalSecondaryIndex) error {
 
 	t.Indexes[*gsiInput.IndexName] = i
 
+	// an index created on a populated table covers the items that already exist
+	// (items whose index key attribute has another type stay out of the index)
+	for key, item := range t.Data {
+		_ = i.putData(key, item)
+	}
+
 	return nil
 }
 
